@@ -455,6 +455,9 @@ func main() {
 		{K: oUnreg, Peer: "p"},
 	}
 	fa, d2 = small, 4
+	if quick {
+		d2 = 3
+	}
 	gen2(nil)
 	// (4) depth-6 scripts over three single-chunk sessions and unregister: session ids re-used after the peer
 	// unregistered and reconnected
